@@ -585,6 +585,32 @@ pub fn explore(kinds: &[TKind], max_depth: usize, max_silent: usize, max_late: u
     dfs(kinds, &mut vec![], &refs, 0, 0, max_depth, max_silent, max_late, stats, found, sample);
 }
 
+/// Canary: a history whose real outcome is `Completed` must be rejected when the shell's answer is
+/// withheld from the protocol machine.
+pub fn canary() -> Result<(), String> {
+    let kinds = [TKind::After];
+    let good = [TStep { act: TAct::Poll, observe: true }, TStep { act: TAct::Fire(0), observe: true }];
+    if replay(&kinds, &good, false).is_err() {
+        return Err("timers canary: the plain fire history is rejected".into());
+    }
+    // same real steps, but tell the protocol the app cleared first (it did not)
+    let mut real = build(&kinds);
+    let mut ids = vec![];
+    let _ = real.observe(&mut ids);
+    real.apply(TAct::Fire(0));
+    let (obs, _) = real.observe(&mut ids).map_err(|f| f.what)?;
+    let mut t = RefTimer::new();
+    let mut pred = vec![];
+    t.run(0, &mut pred);
+    t.apply(TAct::Clear(0));
+    pred.clear();
+    t.run(0, &mut pred);
+    if obs == pred {
+        return Err("timers canary: a completed timer was accepted as clearing".into());
+    }
+    Ok(())
+}
+
 pub fn replay_case(case: &Value) -> i32 {
     if case["api"] == "legacy" {
         return legacy::replay_case(case);
